@@ -1,7 +1,7 @@
-/- The minimum-value filter of `distributeInternal` with its per-`Distribute` cache (`minFilter`, `MinVal.after`):
-what it decides for a denom with a non-zero quote, without value, and with a ZERO quote (the sentinel quirk), and
-the cache-free clause of the property (`worthMinimum`, `clausePays`) it coincides with when no quote is zero.
-Core only. -/
+/- The minimum-value filter of `distributeInternal` with its per-`Distribute` cache (`minFilter`, `MinVal.after`)
+coincides, for every consistent cache state and non-negative quotes, with the cache-free clause of the property
+(`worthMinimum`, `clausePays`): a cached quote is compared like a fresh one, the negative sentinel stands exactly for
+"no route / no quote" (repository fixes af3cbe6371, d4c28ad126).  Core only. -/
 import OsmoVerif.Proofs.IncentivesEpoch
 
 namespace OsmoVerif.Incentives
@@ -17,123 +17,44 @@ theorem missValue_of_quote {m : MinVal} {d : Denom} {v : Int} (hq : assoc m.quot
     m.missValue d = v := by
   unfold MinVal.missValue; rw [hq]
 
-/-- a denom whose quote is NOT zero (or the minimum-value denom itself): the filter is the clause, whatever the
-cache holds. -/
-theorem minFilter_clause {m : MinVal} (hc : CacheOK m) {d : Denom} {v : Int} (hq : assoc m.quotes d = some (some v))
-    (hv : d = Gen.Incentives.BaseCoinUnit ∨ v ≠ 0) (a : Int) : minFilter m d a = decide (v ≤ a) := by
-  unfold minFilter
-  by_cases hb : d = Gen.Incentives.BaseCoinUnit
-  · rw [if_pos hb, hq]
-  · rw [if_neg hb]
-    cases hcd : assoc m.cache d with
-    | none => simp only [hq]
-    | some c =>
-      have hcv : c = v := by rw [hc d c hcd, missValue_of_quote hq]
-      have hv' : v ≠ 0 := by rcases hv with h | h; exact absurd h hb; exact h
-      subst hcv
-      simp only [if_neg hv']
+/-- quotes are amounts of coins (`CalcOutAmtGivenIn` returns an `sdk.Coin`): never negative. -/
+def QuotesNonneg (q : Quotes) : Prop := ∀ d v, assoc q d = some (some v) → 0 ≤ v
 
-/-- no route, or a failing quote: never paid ("not valuable at all"). -/
-theorem minFilter_no_value {m : MinVal} (hc : CacheOK m) {d : Denom}
-    (hq : assoc m.quotes d = none ∨ assoc m.quotes d = some none) (a : Int) : minFilter m d a = false := by
-  have hmv : m.missValue d = 0 := by unfold MinVal.missValue; rcases hq with h | h <;> rw [h]
-  unfold minFilter
-  by_cases hb : d = Gen.Incentives.BaseCoinUnit
-  · rw [if_pos hb]; rcases hq with h | h <;> rw [h]
-  · rw [if_neg hb]
-    cases hcd : assoc m.cache d with
-    | none => rcases hq with h | h <;> simp only [h]
-    | some c =>
-      have : c = 0 := by rw [hc d c hcd, hmv]
-      subst this; simp
-
-/-- THE QUIRK: a non-base denom whose quote is ZERO passes the filter only on the cache miss. -/
-theorem minFilter_zero_quote {m : MinVal} (hc : CacheOK m) {d : Denom} (hb : d ≠ Gen.Incentives.BaseCoinUnit)
-    (hq : assoc m.quotes d = some (some 0)) (a : Int) :
-    minFilter m d a = ((assoc m.cache d).isNone && decide (0 ≤ a)) := by
-  unfold minFilter
-  rw [if_neg hb]
-  cases hcd : assoc m.cache d with
-  | none => simp only [hq, Option.isNone_none, Bool.true_and]
-  | some c =>
-    have : c = 0 := by rw [hc d c hcd, missValue_of_quote hq]
-    subst this; simp
-
-/-- no non-base denom is quoted at zero. -/
-def NoZeroQuote (q : Quotes) : Prop := ∀ d, d ≠ Gen.Incentives.BaseCoinUnit → assoc q d ≠ some (some 0)
-
-/-- without a zero quote the cached filter IS the clause, for every cache state of the call. -/
-theorem minFilter_eq_worthMinimum {m : MinVal} (hc : CacheOK m) (hz : NoZeroQuote m.quotes) :
+/-- **the cached filter IS the clause**, for every cache state of the call: a cached quote is compared like the
+fresh one (also a zero quote), the negative sentinel stands exactly for "no route / no quote". -/
+theorem minFilter_eq_worthMinimum {m : MinVal} (hc : CacheOK m) (hn : QuotesNonneg m.quotes) :
     minFilter m = worthMinimum m.quotes := by
   funext d a
-  unfold worthMinimum
-  cases hq : assoc m.quotes d with
-  | none => simp only; exact minFilter_no_value hc (Or.inl hq) a
-  | some o =>
-    cases o with
-    | none => simp only; exact minFilter_no_value hc (Or.inr hq) a
-    | some v =>
+  unfold minFilter worthMinimum
+  by_cases hb : d = Gen.Incentives.BaseCoinUnit
+  · rw [if_pos hb]
+    cases assoc m.quotes d with
+    | none => rfl
+    | some o => cases o <;> rfl
+  · rw [if_neg hb]
+    cases hcd : assoc m.cache d with
+    | none =>
       simp only
-      refine minFilter_clause hc hq ?_ a
-      by_cases hb : d = Gen.Incentives.BaseCoinUnit
-      · exact Or.inl hb
-      · right; intro hv; subst hv; exact hz d hb hq
-
-/-! ### the cache after the first lock -/
-
-theorem after_fold_keeps (mv : Denom → Int) (remain : Coins) (cache : Cache) {d : Denom} (h : (assoc cache d).isSome = true) :
-    (assoc (remain.foldl (fun cache c =>
-      if c.1 = Gen.Incentives.BaseCoinUnit ∨ (assoc cache c.1).isSome then cache else cache ++ [(c.1, mv c.1)]) cache) d).isSome = true := by
-  induction remain generalizing cache with
-  | nil => exact h
-  | cons x t ih =>
-    simp only [List.foldl_cons]
-    apply ih
-    split
-    · exact h
-    · cases hd : assoc cache d with
-      | none => rw [hd] at h; cases h
-      | some c => rw [assoc_append_some hd]; rfl
-
-theorem after_fold_mem (mv : Denom → Int) (remain : Coins) (cache : Cache) {d : Denom} (hb : d ≠ Gen.Incentives.BaseCoinUnit)
-    (hm : d ∈ remain.map (·.1)) :
-    (assoc (remain.foldl (fun cache c =>
-      if c.1 = Gen.Incentives.BaseCoinUnit ∨ (assoc cache c.1).isSome then cache else cache ++ [(c.1, mv c.1)]) cache) d).isSome = true := by
-  induction remain generalizing cache with
-  | nil => cases hm
-  | cons x t ih =>
-    simp only [List.foldl_cons]
-    simp only [List.map_cons, List.mem_cons] at hm
-    rcases hm with rfl | hm
-    · apply after_fold_keeps
-      split
-      · rename_i h
-        rcases h with h | h
-        · exact absurd h hb
-        · exact h
-      · rename_i h
-        have hn : assoc cache x.1 = none := by
-          cases hh : assoc cache x.1 with
-          | none => rfl
-          | some c => exact absurd (Or.inr (by rw [hh]; rfl)) h
-        rw [assoc_append_none hn, if_pos rfl]; rfl
-    · exact ih _ hm
-
-/-- after the first lock of a gauge every non-base denom of the gauge's remaining coins is cached. -/
-theorem after_cached (m : MinVal) (remain : Coins) {d : Denom} (hb : d ≠ Gen.Incentives.BaseCoinUnit)
-    (hm : d ∈ remain.map (·.1)) : (assoc (m.after remain).cache d).isSome = true :=
-  after_fold_mem m.missValue remain m.cache hb hm
-
-/-- THE QUIRK, for every input: once a gauge's first lock went through the coin loop, a remaining denom quoted at
-ZERO never passes the filter again — not for the later locks of this gauge, nor (the cache only grows) later. -/
-theorem minFilter_after_zero_quote {m : MinVal} (hc : CacheOK m) (remain : Coins) {d : Denom}
-    (hb : d ≠ Gen.Incentives.BaseCoinUnit) (hq : assoc m.quotes d = some (some 0)) (hm : d ∈ remain.map (·.1)) (a : Int) :
-    minFilter (m.after remain) d a = false := by
-  rw [minFilter_zero_quote (CacheOK_after hc remain) hb (by rw [MinVal.after_quotes]; exact hq)]
-  have := after_cached m remain hb hm
-  cases h : assoc (m.after remain).cache d with
-  | none => rw [h] at this; cases this
-  | some c => rfl
+      cases assoc m.quotes d with
+      | none => rfl
+      | some o => cases o <;> rfl
+    | some c =>
+      have hcv := hc d c hcd
+      simp only
+      cases hq : assoc m.quotes d with
+      | none =>
+        have : c = noRouteSentinel := by rw [hcv]; unfold MinVal.missValue; rw [hq]
+        subst this; simp [noRouteSentinel]
+      | some o =>
+        cases o with
+        | none =>
+          have : c = noRouteSentinel := by rw [hcv]; unfold MinVal.missValue; rw [hq]
+          subst this; simp [noRouteSentinel]
+        | some v =>
+          have : c = v := by rw [hcv, missValue_of_quote hq]
+          subst this
+          have := hn d c hq
+          simp only [if_neg (by omega : ¬ c < 0)]
 
 /-! ### the cache-free payout of the property's clause -/
 
@@ -150,26 +71,23 @@ def clausePays (f : Filter) (locks : List Lock) (g : Gauge) : List Pay :=
     else ls.filterMap (payOf f remain (lockSum ls * e))
   | _, _ => []
 
-/-- without a zero quote a gauge that does not fail queues exactly the clause's pays. -/
-theorem gaugePays_eq_clausePays {m : MinVal} (hc : CacheOK m) (hz : NoZeroQuote m.quotes) (locks : List Lock) (g : Gauge)
-    (hne : distributeGauge m locks g ≠ none) : gaugePays m locks g = clausePays (worthMinimum m.quotes) locks g := by
+/-- a gauge queues exactly the clause's pays, whatever the cache holds. -/
+theorem gaugePays_eq_clausePays {m : MinVal} (hc : CacheOK m) (hn : QuotesNonneg m.quotes) (locks : List Lock) (g : Gauge) :
+    gaugePays m locks g = clausePays (worthMinimum m.quotes) locks g := by
   unfold gaugePays clausePays
-  have h1 := minFilter_eq_worthMinimum hc hz
-  have h2 : minFilter (m.after (match subCoins g.coins g.distributed with | some r => r | none => [])) = worthMinimum m.quotes := by
-    have := minFilter_eq_worthMinimum (CacheOK_after hc (match subCoins g.coins g.distributed with | some r => r | none => []))
-      (by rw [MinVal.after_quotes]; exact hz)
+  have h1 := minFilter_eq_worthMinimum hc hn
+  have h2 : ∀ r, minFilter (m.after r) = worthMinimum m.quotes := fun r => by
+    have := minFilter_eq_worthMinimum (CacheOK_after hc r) (by rw [MinVal.after_quotes]; exact hn)
     rw [MinVal.after_quotes] at this; exact this
-  unfold distributeGauge at hne ⊢
+  unfold distributeGauge
   cases hs : subCoins g.coins g.distributed with
-  | none => rw [hs] at hne
+  | none => rfl
   | some remain =>
-    rw [hs] at hne h2
-    simp only at hne h2 ⊢
+    simp only
     cases he : remainEpochs g with
-    | none => rw [he] at hne
+    | none => rfl
     | some e =>
-      rw [he] at hne
-      simp only at hne ⊢
+      simp only
       by_cases c1 : (gaugeLocks g locks).isEmpty = true
       · simp [c1]
       · by_cases c2 : remain.isEmpty = true
@@ -178,33 +96,40 @@ theorem gaugePays_eq_clausePays {m : MinVal} (hc : CacheOK m) (hz : NoZeroQuote 
           · simp [c1, c2, c3]
           · by_cases c4 : lockSum (gaugeLocks g locks) = 0
             · simp [c1, c2, c3, c4]
-            · by_cases c5 : m.fails remain = true
-              · simp only [c1, c2, c3, c4, c5, if_false, if_true, Bool.false_eq_true] at hne
-                exact absurd rfl hne
-              · simp only [c1, c2, c3, c4, c5, if_false, Bool.false_eq_true, or_self]
-                rw [h1, h2, lockPays_same_eq_filterMap]
+            · simp only [c1, c2, c3, c4, if_false, Bool.false_eq_true, or_self]
+              rw [h1, h2, lockPays_same_eq_filterMap]
 
-/-- without a zero quote the send queue of a successful `Distribute` is the clause's pays of the gauges, in order. -/
-theorem snapPays_eq_clausePays {m : MinVal} (hc : CacheOK m) (hz : NoZeroQuote m.quotes) {locks : List Lock}
-    {snap store : List Gauge} {info : Info} {r : List Gauge × Info}
-    (h : distributeLoop m locks snap store info = some r) :
-    snapPays m locks snap = snap.flatMap (clausePays (worthMinimum m.quotes) locks) := by
-  induction snap generalizing store info m with
+/-- the send queue of a `Distribute` call is the clause's pays of the gauges, in order. -/
+theorem snapPays_eq_clausePays {m : MinVal} (hc : CacheOK m) (hn : QuotesNonneg m.quotes) (locks : List Lock)
+    (snap : List Gauge) : snapPays m locks snap = snap.flatMap (clausePays (worthMinimum m.quotes) locks) := by
+  induction snap generalizing m with
   | nil => rfl
   | cons g gs ih =>
-    simp only [distributeLoop] at h
-    have hne : distributeGauge m locks g ≠ none := by
-      intro hh; rw [hh] at h; cases h
     have hc' := CacheOK_afterGauge hc locks g
-    have hz' : NoZeroQuote (m.afterGauge locks g).quotes := by rw [MinVal.afterGauge_quotes]; exact hz
-    simp only [snapPays, List.flatMap_cons, gaugePays_eq_clausePays hc hz locks g hne]
+    have hn' : QuotesNonneg (m.afterGauge locks g).quotes := by rw [MinVal.afterGauge_quotes]; exact hn
+    simp only [snapPays, List.flatMap_cons, gaugePays_eq_clausePays hc hn locks g]
     congr 1
-    cases hd : distributeGauge m locks g with
-    | none => exact absurd hd hne
-    | some rr =>
-      rw [hd] at h
-      cases rr with
-      | none => have := ih hc' hz' h; rw [MinVal.afterGauge_quotes] at this; exact this
-      | some tp => have := ih hc' hz' h; rw [MinVal.afterGauge_quotes] at this; exact this
+    have := ih hc' hn'
+    rw [MinVal.afterGauge_quotes] at this
+    exact this
+
+/-- `distributeGauge` fails only on a broken record (distributed > coins, or no epochs left): never because of a quote. -/
+theorem distributeGauge_none_iff (m : MinVal) (locks : List Lock) (g : Gauge) :
+    distributeGauge m locks g = none ↔ subCoins g.coins g.distributed = none ∨ remainEpochs g = none := by
+  unfold distributeGauge
+  cases hs : subCoins g.coins g.distributed with
+  | none => simp
+  | some remain =>
+    cases he : remainEpochs g with
+    | none => simp
+    | some e =>
+      simp only
+      constructor
+      · intro h
+        split at h; · cases h
+        split at h; · cases h
+        split at h; · cases h
+        split at h <;> cases h
+      · rintro (h | h) <;> cases h
 
 end OsmoVerif.Incentives
